@@ -8,6 +8,28 @@ From GV Require Import model.Arith model.Decimal proofs.ArithProofs proofs.Decim
 Import ListNotations.
 Open Scope Z_scope.
 
+(* ---- 0. HEADLINE, about the current source (every operator file uses checked arithmetic: scanned flags
+        *_native = Some 0; a revert to the native operators makes these stop checking):
+        impl = spec for EVERY build mode, width, signedness, operator and operand pair: the exact value
+        when it is representable, an error otherwise (overflow, division by zero, MIN / -1); MIN % -1 = 0.
+        Never a wrapped value, never a panic. *)
+Theorem C12_never_wraps_never_panics :
+  add_native = Some 0 /\ sub_native = Some 0 /\ mul_native = Some 0 /\ div_native = Some 0 /\ rem_native = Some 0 /\
+  rem_checked_min_neg1_is_zero = Some 1 /\
+  forall m sg w op a b, 0 < w -> in_range sg w a = true -> in_range sg w b = true ->
+  impl_bin Checked m sg w op a b = spec_bin sg w op a b.
+Proof. exact src_never_wraps_never_panics. Qed.
+Print Assumptions C12_never_wraps_never_panics.
+
+Theorem C12_neg_never_wraps_never_panics :
+  neg_native = Some 0 /\ forall m w a, impl_neg Checked m w a = spec_neg w a.
+Proof. exact src_neg_never_wraps_never_panics. Qed.
+Print Assumptions C12_neg_never_wraps_never_panics.
+
+Theorem C12_checked_min_rem_neg1 : forall m w, 0 < w -> impl_bin Checked m Signed w Rem (lo Signed w) (-1) = Ok 0.
+Proof. exact checked_min_rem_neg1. Qed.
+Print Assumptions C12_checked_min_rem_neg1.
+
 (* ---- 1. exact whenever the mathematical result is representable: every operator, width,
         signedness, style and build mode; values unbounded (the wrap is `mod 2^w`).
         Full statement (without the last hypothesis) is refuted by MIN % -1, see 2. *)
@@ -28,8 +50,9 @@ Theorem C12_impl_neg_exact_when_representable : forall st m w a, 0 < w -> repres
 Proof. exact impl_neg_exact_when_representable. Qed.
 Print Assumptions C12_impl_neg_exact_when_representable.
 
-(* ---- 2. never wraps, never panics: impl = spec (exact value or Err).  REFUTED at full strength on
-        the faithful (Native) model; the witnesses: *)
+(* ---- 2. the Native variant (the source before "fix: integer and decimal arithmetic must fail with an error
+        instead of panicking or wrapping"): what a regression looks like.  never_wraps_never_panics is
+        REFUTED for it; the witnesses: *)
 Theorem C12_never_wraps_never_panics_refuted_add_debug :
   in_range Signed 8 127 = true /\ in_range Signed 8 1 = true /\
   impl_bin Native Debug Signed 8 Add 127 1 = Panic /\ spec_bin Signed 8 Add 127 1 = Err.
@@ -87,13 +110,6 @@ Theorem C12_wrap_wrong_when_unrepresentable : forall sg w x, 0 < w -> in_range s
 Proof. exact wrap_wrong_when_unrepresentable. Qed.
 Print Assumptions C12_wrap_wrong_when_unrepresentable.
 
-(* what the proposed repair (checked_* operators) achieves *)
-Theorem C12_checked_style_meets_spec : forall m sg w op a b, 0 < w ->
-  in_range sg w a = true -> in_range sg w b = true -> ~ rem_min_neg1 sg w op a b ->
-  impl_bin Checked m sg w op a b = spec_bin sg w op a b.
-Proof. exact checked_style_meets_spec. Qed.
-Print Assumptions C12_checked_style_meets_spec.
-
 (* ---- 3. decimal result types: for EVERY (p1,s1),(p2,s2) the unclamped type holds the result *)
 Theorem C12_add_sub_type_fits : forall P k p1 s1 p2 s2 p' s' a b (sub : bool),
   0 <= s1 <= p1 -> 0 <= s2 <= p2 ->
@@ -116,14 +132,14 @@ Print Assumptions C12_mul_type_fits.
    are exact in every style and mode whenever the precision was not clamped *)
 Theorem C12_src_max_precision_fits_primitive : exists k64 k128,
   d64_max_precision = Some k64 /\ d128_max_precision = Some k128 /\
-  forall pw dv, params_ok {| max64 := k64; max128 := k128; pow_i32 := pw; d2d_validates := dv |}.
+  forall pw dv rv, params_ok {| max64 := k64; max128 := k128; pow_i32 := pw; d2d_validates := dv; res_validates := rv |}.
 Proof. exact src_params_ok. Qed.
 Print Assumptions C12_src_max_precision_fits_primitive.
 
 Theorem C12_dec_addsub_exact_when_not_clamped : exists k64 k128,
   d64_max_precision = Some k64 /\ d128_max_precision = Some k128 /\
-  forall pw dv st m k sub p1 s1 a p2 s2 b p' s',
-  let P := {| max64 := k64; max128 := k128; pow_i32 := pw; d2d_validates := dv |} in
+  forall pw dv rv st m k sub p1 s1 a p2 s2 b p' s',
+  let P := {| max64 := k64; max128 := k128; pow_i32 := pw; d2d_validates := dv; res_validates := rv |} in
   0 <= s1 <= p1 -> 0 <= s2 <= p2 -> Z.abs a < 10 ^ p1 -> Z.abs b < 10 ^ p2 ->
   add_sub_type P k p1 s1 p2 s2 = (p', s', false) ->
   dec_addsub P st m k sub (ODec p1 s1 a) (ODec p2 s2 b)
@@ -134,8 +150,8 @@ Print Assumptions C12_dec_addsub_exact_when_not_clamped.
 
 Theorem C12_dec_mul_exact_when_not_clamped : exists k64 k128,
   d64_max_precision = Some k64 /\ d128_max_precision = Some k128 /\
-  forall pw dv st m k p1 s1 a p2 s2 b p' s',
-  let P := {| max64 := k64; max128 := k128; pow_i32 := pw; d2d_validates := dv |} in
+  forall pw dv rv st m k p1 s1 a p2 s2 b p' s',
+  let P := {| max64 := k64; max128 := k128; pow_i32 := pw; d2d_validates := dv; res_validates := rv |} in
   0 <= p1 -> 0 <= p2 -> Z.abs a < 10 ^ p1 -> Z.abs b < 10 ^ p2 ->
   mul_type P k p1 s1 p2 s2 = Some (p', s', false) ->
   dec_mul P st m k (ODec p1 s1 a) (ODec p2 s2 b) = Some ((p', s', false), Ok (a * b))
@@ -154,66 +170,60 @@ Theorem C12_int_meta_covers : forall w v, In w [8; 16; 32; 64] -> in_range Signe
 Proof. exact int_meta_covers. Qed.
 Print Assumptions C12_int_meta_covers.
 
-(* the full statement (also for clamped precisions) is refuted: *)
-Theorem C12_dec_add_clamped_refuted : forall m,
-  dec_addsub P0 Native m D64 false (ODec 18 0 999999999999999999) (ODec 18 0 1)
-    = ((18, 0, true), Ok 1000000000000000000)
-  /\ spec_addsub P0 D64 false (ODec 18 0 999999999999999999) (ODec 18 0 1) = Err.
-Proof. exact dec_add_clamped_refuted. Qed.
-Print Assumptions C12_dec_add_clamped_refuted.
-
-(* for EVERY pair of precisions (clamped or not), with the casts validating as the current source does:
-   an error, or the exact value with at most one digit too many (the add itself is unchecked and
-   unvalidated), or -- Decimal128 with the native operator only -- an i128 overflow of the add.
-   No over-precision operand is ever used; Decimal64 never panics or wraps. *)
-Theorem C12_dec_addsub_exact_or_error_any_precision : exists k64 k128,
-  d64_max_precision = Some k64 /\ d128_max_precision = Some k128 /\ decimal_to_decimal_validates = Some 1 /\
+(* FULL strength about the current source, for EVERY (p1,s1),(p2,s2) -- clamped or not -- every style and
+   mode: decimal + / - gives exactly the spec's outcome (the exact value when it has at most p' digits,
+   else an error), or -- only when the precision was clamped -- an error because an operand does not fit
+   the common type.  Never a wrong value, never too many digits, never a panic. *)
+Theorem C12_dec_addsub_meets_spec_or_cast_error : exists k64 k128,
+  d64_max_precision = Some k64 /\ d128_max_precision = Some k128 /\
+  decimal_to_decimal_validates = Some 1 /\ dec_add_validates = Some 1 /\ dec_sub_validates = Some 1 /\
   forall pw st m k sub p1 s1 a p2 s2 b ty r,
-  let P := {| max64 := k64; max128 := k128; pow_i32 := pw; d2d_validates := true |} in
+  let P := {| max64 := k64; max128 := k128; pow_i32 := pw; d2d_validates := true; res_validates := true |} in
   0 <= s1 <= p1 -> 0 <= s2 <= p2 -> Z.abs a < 10 ^ p1 -> Z.abs b < 10 ^ p2 ->
   dec_addsub P st m k sub (ODec p1 s1 a) (ODec p2 s2 b) = (ty, r) ->
-  let p' := fst (fst ty) in let s' := snd (fst ty) in
-  let v := exact_addsub s' sub (ODec p1 s1 a) (ODec p2 s2 b) in
-  r = Err \/ (r = Ok v /\ Z.abs v < 2 * 10 ^ p') \/
-  (k = D128 /\ st = Native /\ in_range Signed 128 v = false).
-Proof. exact src_dec_addsub_exact_or_error_any_precision. Qed.
-Print Assumptions C12_dec_addsub_exact_or_error_any_precision.
+  r = spec_addsub P k sub (ODec p1 s1 a) (ODec p2 s2 b) \/ (r = Err /\ snd ty = true).
+Proof. exact src_dec_addsub_meets_spec. Qed.
+Print Assumptions C12_dec_addsub_meets_spec_or_cast_error.
 
-(* the strict statement (error ONLY when the exact result does not fit) is refuted for clamped
-   precisions also on the error side: an operand that does not fit the common type fails the cast *)
+(* decimal *: exactly the spec, every precision pair *)
+Theorem C12_dec_mul_meets_spec : exists k64 k128,
+  d64_max_precision = Some k64 /\ d128_max_precision = Some k128 /\ dec_mul_validates = Some 1 /\
+  forall pw dv st m k p1 s1 a p2 s2 b ty r,
+  let P := {| max64 := k64; max128 := k128; pow_i32 := pw; d2d_validates := dv; res_validates := true |} in
+  0 <= p1 -> 0 <= p2 ->
+  dec_mul P st m k (ODec p1 s1 a) (ODec p2 s2 b) = Some (ty, r) ->
+  spec_mul P k (ODec p1 s1 a) (ODec p2 s2 b) = Some r.
+Proof. exact src_dec_mul_meets_spec. Qed.
+Print Assumptions C12_dec_mul_meets_spec.
+
+(* the strict statement (r = spec always) is refuted only on the error side and only for clamped
+   precisions: the exact 0.5 fits decimal(18,18) but the operand 1 does not *)
 Theorem C12_dec_add_clamped_cast_error_though_representable : forall m,
-  dec_addsub P0 Native m D64 false (ODec 18 0 10) (ODec 18 18 (-9500000000000000000))
-    = ((18, 18, true), Err)
-  /\ dec_addsub P0 Native m D64 false (ODec 18 0 1) (ODec 18 18 (-500000000000000000)) = ((18, 18, true), Err)
+  dec_addsub P0 Checked m D64 false (ODec 18 0 1) (ODec 18 18 (-500000000000000000)) = ((18, 18, true), Err)
   /\ spec_addsub P0 D64 false (ODec 18 0 1) (ODec 18 18 (-500000000000000000)) = Ok 500000000000000000.
 Proof. exact dec_add_clamped_cast_error_though_representable. Qed.
 Print Assumptions C12_dec_add_clamped_cast_error_though_representable.
 
-(* an integer operand of decimal + / -: exact scale factor now (was computed in i32) *)
+(* the former witnesses (19 digits in decimal(18,0); product panicking / wrapping; i32 scale factor) *)
+Theorem C12_dec_clamped_now_error : forall m,
+  dec_addsub P0 Checked m D64 false (ODec 18 0 999999999999999999) (ODec 18 0 1) = ((18, 0, true), Err)
+  /\ spec_addsub P0 D64 false (ODec 18 0 999999999999999999) (ODec 18 0 1) = Err
+  /\ dec_mul P0 Checked m D64 (ODec 9 0 500000000) (ODec 10 0 9999999999) = Some ((18, 0, true), Err)
+  /\ dec_mul P0 Checked m D64 (ODec 10 0 9999999999) (ODec 10 0 9999999999) = Some ((18, 0, true), Err)
+  /\ spec_mul P0 D64 (ODec 10 0 9999999999) (ODec 10 0 9999999999) = Some Err.
+Proof. exact dec_clamped_now_error. Qed.
+Print Assumptions C12_dec_clamped_now_error.
+
 Theorem C12_int_to_decimal_scale_exact_now : forall m,
-  dec_addsub P0 Native m D64 false (ODec 12 10 15000000000) (OInt 8 1) = ((14, 10, false), Ok 25000000000)
+  dec_addsub P0 Checked m D64 false (ODec 12 10 15000000000) (OInt 8 1) = ((14, 10, false), Ok 25000000000)
   /\ spec_addsub P0 D64 false (ODec 12 10 15000000000) (OInt 8 1) = Ok 25000000000.
 Proof. exact int_to_decimal_scale_exact_now. Qed.
 Print Assumptions C12_int_to_decimal_scale_exact_now.
 
-Theorem C12_dec_mul_clamped_refuted_digits : forall m,
-  dec_mul P0 Native m D64 (ODec 9 0 500000000) (ODec 10 0 9999999999)
-    = Some ((18, 0, true), Ok 4999999999500000000)
-  /\ spec_mul P0 D64 (ODec 9 0 500000000) (ODec 10 0 9999999999) = Some Err.
-Proof. exact dec_mul_clamped_refuted_digits. Qed.
-Print Assumptions C12_dec_mul_clamped_refuted_digits.
-
-Theorem C12_dec_mul_clamped_refuted_overflow :
-  dec_mul P0 Native Debug D64 (ODec 10 0 9999999999) (ODec 10 0 9999999999) = Some ((18, 0, true), Panic)
-  /\ dec_mul P0 Native Release D64 (ODec 10 0 9999999999) (ODec 10 0 9999999999)
-     = Some ((18, 0, true), Ok 7766279611452241921)
-  /\ spec_mul P0 D64 (ODec 10 0 9999999999) (ODec 10 0 9999999999) = Some Err.
-Proof. exact dec_mul_clamped_refuted_overflow. Qed.
-Print Assumptions C12_dec_mul_clamped_refuted_overflow.
-
 Theorem C12_refutation_params_are_source : d64_max_precision = Some (max64 P0) /\ d128_max_precision = Some (max128 P0) /\
   int_to_decimal_pow_i32 = Some (if pow_i32 P0 then 1 else 0) /\
-  decimal_to_decimal_validates = Some (if d2d_validates P0 then 1 else 0).
+  decimal_to_decimal_validates = Some (if d2d_validates P0 then 1 else 0) /\
+  dec_add_validates = Some (if res_validates P0 then 1 else 0).
 Proof. exact src_P0. Qed.
 Print Assumptions C12_refutation_params_are_source.
 
